@@ -45,6 +45,9 @@ Sensitivity (quick tier, seed 1, one mutant at a time on a scratch copy; all run
     header-parameter key/name/value/quoted/RFC 2231 pieces, cookie name/value/quoted octets, host and port, token
     parameters (encode round trip) and ``re.escape`` round trip (seventh-round mutation testing; the random reason
     alphabet hit "<" too rarely)
+  * ``_parse_header``: ``except ValueError`` around ``collapse_rfc2231_value`` narrowed to ``except UnicodeError`` (a NUL in an
+    RFC 2231 charset name raises ValueError('embedded null character') again) ... caught at seeds 1,2,3
+    (C43.parse_header_raises on ``a; x*=\\x00''v``, sweep part; also replays/C43/parse-header-rfc2231-charset.json's class)
   * ``_parse_header`` not lower-casing names ......................... caught (C43.encode_roundtrip)
   * NOT caught because equivalent: ``_netloc_re`` non-greedy (planned in DESIGN; the ``$`` anchor forces
     the same split) and ``(\\d+)`` -> ``(\\d*)`` (``int("")`` lands in the existing ``except ValueError``).
